@@ -39,7 +39,10 @@ def gen_case(rnd):
         l = nm + b":" + rnd.choice([b"1", b"2", b"0.5"]) + b"|" + rnd.choice(TYPES)
         if rnd.random() < 0.35:
             l += b"|#" + rnd.choice([b"k:v", b"k:w", b"j:v", b"__name__:q", b"le:1", b"quantile:0.5", b"-_x:1", b"a.b:1,a-b:2", b"k:caf\xc3\xa9", b"h\xef\xbf\xbdst:1", b"\xef\xbf\xbd:1"])
-        ops.append(PE.I(l))
+        if rnd.random() < 0.06 and b"|#" not in l:
+            ops.append("X " + vf.hexs(l + b"|#k:a!ffb"))      # injected past the parser: a label value that is not valid UTF-8
+        else:
+            ops.append(PE.I(l))
         ops.append("G")
         if rnd.random() < 0.15:
             ops += ["A 3000000000", "S", "G"]
@@ -114,3 +117,6 @@ def run(rep, tier, seed, replay):
            "%(n)d histories of 2-12 lines over names {x, x_sum, x_count, x_bucket, x_total, ...} x types {c,g,ms,h} x reserved/exotic tag keys, names of "
            "the binary's own collectors, names that are only tags, two rules mapping to one name with different help, TTL expiry; a scrape (gather + "
            "text encode + parse back) after EVERY line; non-trivial = prefix whose scrape has >= 2 families; distinct by prefix", extra_cases=extra)
+    if not replay and len(rep.violations) < 5:
+        import e2e_engine as E2E
+        E2E.run(rep, "C03", tier, seed, n_quick=10, n_thorough=400, gen=E2E.gen_hostile_case, key="e2e_exposition")
